@@ -158,7 +158,8 @@ R5 = {
           "NOT ADDRESSED: the wrappers explored by C07 (RandomSampling, UncertaintySampling) never emit -inf, and the availability patterns that trigger it coincide with the open non-termination finding (empty availability row ranked into the batch); stated as a limit in DESIGN 8"),
  "C08e": ("C08", "base.py (PoolQueryStrategy._validate_data, seed multiplier)", "a strategy with internal randomness (bootstrap in ExpectedModelChangeMaximization, MDS in CostEmbeddingAL), an integer seed and a candidate subset", ["C08"],
           "C08 compared restrictions under the substituted generator only; restrictions are now also compared under the real generator with an integer seed"),
- "C09e": ("C09", "pool/_discriminative_al.py (query)", "a discriminator whose missing_label is set to a non-default sentinel (None / string / 0 / 1)", ["C09"], ""),
+ "C09e": ("C09", "pool/_discriminative_al.py (query)", "a discriminator whose missing_label is set to a non-default sentinel (None / string / 0 / 1)", ["C09"],
+          "the catalogue handed DiscriminativeAL a discriminator built with the default sentinel whatever the encoding ('set consistently on the strategy and its models' was not honoured by my own harness); it now gets the encoding's sentinel"),
  "C10e": ("C10", "stream/budgetmanager/_estimated_budget_zliobaite.py (RandomBudgetManager.query_by_utility)", "NaN utilities inside a chunk of > 1 instances (charged to the simulated budget but never committed)", ["C10"], ""),
  "C11e": ("C11", "base.py (ClassFrequencyEstimator.predict_proba)", "a row whose total frequency mass is positive but below machine epsilon (query point at moderate distance, tiny weights)", ["C11"],
           "the far query point underflows to exactly 0; a mid-far point (mass ~1e-22) was added"),
